@@ -278,6 +278,19 @@ def t2(ctx):
     ctx.check('TotalOrderSort/stages', bool(s1) and bool(s2),
               'engine: plain sort, then sort with a key function',
               'engine stages not recognised (plain sort: %d, keyed sort: %d)' % (len(s1), len(s2)), f.loc)
+    # the plain sort is always attempted: nothing in the first stage throws (or makes up a Python
+    # error) before PyList_Sort has run - "these keys will not compare anyway" is for the sort to say
+    if s1:
+        sn = cfg.cnode_of(s1[0])
+        early = [t for t in trys[0].kids[0].walk() if t.kind == 'CXXThrowExpr' and cfg.cnode_of(t) is not None and
+                 sn is not None and not cfg.dominates(sn, cfg.cnode_of(t))]
+        made_up = calls_in(trys[0].kids[0], {'PyErr_SetString', 'PyErr_SetObject', 'PyErr_Format'})
+        ctx.check('TotalOrderSort/plain-sort-always-attempted', not early and not made_up,
+                  'engine stage 1: the only way on to the fallback is a TypeError raised by the sort itself',
+                  'engine stage 1 %s before / instead of the plain sort: keys that do compare (a str next to an '
+                  'instance of a str subclass) are ordered by type name, not by value'
+                  % ('throws' if early else 'sets a Python error of its own'),
+                  (early[0].loc if early else (made_up[0].loc if made_up else f.loc)))
     # key function attributes
     lam = [l for l in f.body.find('LambdaExpr')]
     attrs = set()
